@@ -90,6 +90,7 @@ func (mgr *GCMgr) UpdateHtreePos(bkt *Bucket, ki *KeyInfo, oldPos, newPos Positi
 			bkt.ID, ki.StringKey, meta, oldPos)
 		return
 	}
+	verifPoint("gc.repoint.mid")
 	bkt.htree.set(ki, meta, newPos)
 }
 
@@ -195,6 +196,7 @@ func (mgr *GCMgr) gc(bkt *Bucket, startChunkID, endChunkID int, merge bool) {
 	mgr.mu.Lock()
 	mgr.stat[bkt] = gc
 	mgr.mu.Unlock()
+	verifPoint("gc.registered")
 	gc.Running = true
 	gc.BeginTS = time.Now()
 	defer func() {
